@@ -290,7 +290,7 @@ def chunk_len(r, avail, style):
 
 
 def buf_kind(r):
-    k = r.choice(["bytes", "bytes", "bytearray", "memoryview", "bytes", "bytes", "bytearray", "memoryview", "bytearray_viewed"])
+    k = r.choice(["bytes", "bytes", "bytearray", "memoryview", "bytes", "bytes", "bytearray", "memoryview", "bytearray_viewed", "memoryview_reused"])
     return k, (k != "bytes" and r.random() < 0.7)
 
 
